@@ -57,6 +57,9 @@ void sched_wait_until(int (*pred)(void *), void *arg)
 {
 	for (;;) { __sync_synchronize(); if (pred(arg)) return; nap(50); }
 }
+/* free-running approximation: 'idle' once it has been asked often enough (~5 ms of naps) */
+static int idle_asks;
+int sched_thread_idle(int id, int64_t d) { (void)id; (void)d; return ++idle_asks % 100 == 0; }
 void sched_end(void) { nth = 1; }
 int sched_self(void) { return self; }
 int sched_locks_held(void) { return 0; }
